@@ -80,7 +80,7 @@ def oracle(ix, res, prefix='C01', focus=None):
     res.nontrivial = nontrivial
 
 
-def evaluate(case):
+def evaluate_one(case):
     res = Result()
     trace, ix = run_case(case, run_on=False)
     shape_labels(case, trace, res)
@@ -127,3 +127,7 @@ LEVEL_TEXT = ("generated search: every generated run is observed event by event 
               "within the bounds is evidence, not proof")
 LEVEL_NOTE = ("trusts the virtual-time loop (CPython's BaseEventLoop with a fake selector), "
               "the verification-side job subclasses and the trace recorder; bounded trees")
+
+
+from ._rt import with_variants                     # noqa: E402
+evaluate = with_variants(evaluate_one)
